@@ -190,6 +190,7 @@ func c12Scenarios(tier mc.Tier) []mc.Scenario {
 		}
 	}
 	// a certificate whose distribution points are [ldap, http] and one with a single https point: the documented shapes still hold
+	out = append(out, mc.Scenario{Name: "C12-unusual-url-spellings", Bound: -1, Expect: 4 * 4 * 3 * 3, Body: c12Spellings, Params: map[string]string{"chain": "2", "spellings": "HTTP:// responder, responder path with a space, HtTp:// point, point with :80"}})
 	out = append(out, mc.Scenario{Name: "C12-non-http-distribution-points", Bound: 1, Body: c12NonHTTP, Params: map[string]string{"chain": "3", "shapes": "[ldap,http] and [https]"}})
 	for _, p := range []purposeKind{purposeCS, purposeTS} {
 		p := p
@@ -384,6 +385,15 @@ func c12Invalid(c *mc.Ctx, p purposeKind) {
 	}
 	c.Statef("invalid=%v", wantInvalid)
 	tr := &netsim.Transport{Handler: func(*netsim.Request, *http.Request) netsim.Answer { return netsim.Answer{Err: netsim.ErrTransport} }}
+	// the very same certificates were checked for the *other* purpose a moment ago (some of these chains conform to it): a verdict on
+	// a chain belongs to the purpose it was asked for
+	other := purposeTS
+	if p == purposeTS {
+		other = purposeCS
+	}
+	for _, entry := range []string{"validatecontext", "checkstatus"} {
+		runEntry(entry, other, tr, chain)
+	}
 	for _, entry := range []string{"validatecontext", "checkstatus"} {
 		res, err, pan := runEntry(entry, p, tr, chain)
 		var ice result.InvalidChainError
@@ -444,6 +454,66 @@ var (
 )
 
 // c12NonHTTP: certificate 0 names [ldap://…, http://…] distribution points, certificate 1 a single https://… one (no responders).
+var (
+	c12SpOnce sync.Once
+	c12SpW    *revWorld
+)
+
+// c12Spellings: URLs that are legal but not in the spelling net/url would print (upper-case scheme, a space in the path, a default
+// port, an empty query): server results still name the certificate's own URL strings, exactly as the certificate spells them.
+func c12Spellings(c *mc.Ctx) {
+	c12SpOnce.Do(func() {
+		c12SpW = newRevWorldURLs(2, []int{2}, []int{2}, purposeCS, func(kind string, ci, j int) (string, bool) {
+			switch {
+			case kind == "ocsp" && j == 0:
+				return strings.Replace(ocspURL(ci, j), "http://", "HTTP://", 1), true
+			case kind == "ocsp" && j == 1:
+				return ocspURL(ci, j) + "/with space", true
+			case kind == "crl" && j == 0:
+				return strings.Replace(crlURL(ci, j), "http://", "HtTp://", 1), true
+			case kind == "crl" && j == 1:
+				return strings.Replace(crlURL(ci, j), "http://crl.test/", "http://crl.test:80/", 1), true
+			}
+			return "", false
+		})
+	})
+	w := c12SpW
+	oc := []int{c.ChooseFree("ocsp[r0]", len(ocspClassNames)), c.ChooseFree("ocsp[r1]", len(ocspClassNames))}
+	cc := []int{c.ChooseFree("crl[dp0]", len(crlClassNames)), c.ChooseFree("crl[dp1]", len(crlClassNames))}
+	tr := &netsim.Transport{}
+	tr.Handler = func(r *netsim.Request, raw *http.Request) netsim.Answer {
+		src, ok := parseSource(strings.Replace(r.URL, "http://crl.test:80/", "http://crl.test/", 1))
+		if !ok || src.cert != 0 {
+			return netsim.Answer{Status: 404}
+		}
+		if src.kind == "ocsp" {
+			return w.serveOCSP(src, ocspByName(ocspClassNames[oc[src.idx]]))
+		}
+		return w.serveCRL(src, crlByName(crlClassNames[cc[src.idx]]))
+	}
+	chain := pki.X509s(w.certs)
+	c.Statef("spellings ocsp=%v crl=%v", oc, cc)
+	for _, entry := range []string{"validatecontext", "validate", "checkstatus"} {
+		res, err, pan := runEntry(entry, purposeCS, tr, chain)
+		if pan != nil || err != nil || len(res) != 2 {
+			c.Fail("C12 valid chain not processed", "entry %s: panic=%v err=%v", entry, pan, err)
+			return
+		}
+		en := "validate"
+		if entry == "checkstatus" {
+			en = "checkstatus"
+		}
+		for _, why := range shapeViolations(chain, res, en) {
+			c.Fail("C12 "+entry+" result-shape (unusual URL spellings): "+stripDigits(why), "%s", why)
+		}
+		want := refCert(0, oc, cc, en)
+		c.Outcome(fmt.Sprintf("spellings:%s", want.res))
+		if res[0].Result != want.res {
+			c.Fail("C12 "+entry+" verdict with unusual URL spellings", "got %s, decision table says %s (ocsp %v crl %v)", res[0].Result, want.res, oc, cc)
+		}
+	}
+}
+
 func c12NonHTTP(c *mc.Ctx) {
 	c12NHOnce.Do(func() {
 		c12NHW = newRevWorldURLs(3, []int{0, 0}, []int{2, 1}, purposeCS, func(kind string, ci, j int) (string, bool) {
